@@ -366,10 +366,10 @@ func relateMetadata(t *tape.Tape, a, b []world.Op) []world.Op {
 
 // deliver feeds prog to the Renderer, either by direct calls or through the
 // byte channel (Encoder -> Decode), which is how reuse happens in practice.
-func deliver(r *render.Renderer, prog []world.Op, viaBytes bool) {
+func deliver(r *render.Renderer, prog []world.Op, viaBytes bool, opts ...decode.DecodeOption) {
 	if viaBytes {
 		if b := encodeOps(prog); b != nil {
-			_ = decode.Decode(r, b)
+			_ = decode.Decode(r, b, opts...)
 			return
 		}
 	}
@@ -422,12 +422,29 @@ func rendReuse(ctx *Ctx, t *tape.Tape, as [][]world.Op, cuts []int, causes []abo
 		r.SetRasterizer(z, *rect2)
 		rect = *rect2
 	}
+	// a decode of the second graphic may come with the caller's own palette
+	// (which may hold anything, also colours that are not premultiplied and
+	// gradient-looking entries) and single-colour overrides
+	var opts []decode.DecodeOption
+	if viaBytes && t.Chance(1, 3) {
+		if t.Bool() {
+			pal := *world.GenPalette(t)
+			for j := t.Intn(4); j > 0; j-- {
+				pal[t.Intn(64)] = color.RGBA{uint8(t.Intn(256)), uint8(t.Intn(256)), uint8(t.Intn(256)), uint8(t.Intn(3) * 0x7f)}
+			}
+			opts = append(opts, decode.WithPalette(pal))
+		}
+		if t.Bool() || len(opts) == 0 {
+			opts = append(opts, decode.WithColorAt(t.Intn(64), color.NRGBA{uint8(t.Intn(256)), uint8(t.Intn(256)), uint8(t.Intn(256)), uint8(t.Intn(256))}))
+		}
+		notes = append(notes, "second use decoded with WithPalette/WithColorAt options")
+	}
 	mark := len(z.Ops)
-	pReused, _, msgReused := guard(func() { deliver(&r, b, viaBytes) })
+	pReused, _, msgReused := guard(func() { deliver(&r, b, viaBytes, opts...) })
 	z2 := &world.RecRaster{}
 	var r2 render.Renderer
 	r2.SetRasterizer(z2, rect)
-	pFresh, _, _ := guard(func() { deliver(&r2, b, viaBytes) })
+	pFresh, _, _ := guard(func() { deliver(&r2, b, viaBytes, opts...) })
 	if pReused && pFresh {
 		if ctx.Stats != nil {
 			ctx.Stats.Add("cases_set_aside_because_the_code_panicked", 1)
